@@ -682,7 +682,13 @@ class FldExporter(Exporter):
         if scope == FldExporter.ScopeOfValues.AllVariables:
             if len(engine.input_variables) == 0:
                 raise ValueError("expected input variables in engine, but got none")
-            resolution = -1 + max(1, int(pow(values, (1.0 / len(engine.input_variables)))))
+            # largest integer whose n-th power does not exceed `values` (the floating-point root of a
+            # perfect power may be just below the integer, e.g., pow(64, 1/3) = 3.9999999999999996)
+            n = len(engine.input_variables)
+            root = round(pow(values, 1.0 / n))
+            if root**n > values:
+                root -= 1
+            resolution = -1 + max(1, root)
         else:
             resolution = values - 1
 
